@@ -3,6 +3,9 @@ import OasisModel.Mux.Proposal
 Helper lemmas for C01 (proposal cache of the ABCI multiplexer): algebra of `run`, noise calls,
 step-by-step delivery versus `execBlock`, the cache invariant.
 -/
+set_option linter.unusedSectionVars false
+set_option linter.unusedSimpArgs false
+
 namespace OasisProofs.MuxH
 open OasisModel.Mux
 
@@ -214,6 +217,7 @@ theorem run_delivers_cached (A : Apps St W Tx R Root Hdr LC Ev) (self : Nat) (ca
         Option.map_map]
       rfl
 
+omit [DecidableEq Tx] [DecidableEq Root] [DecidableEq Hdr] [DecidableEq Ev] in
 theorem deliverAll_length (A : Apps St W Tx R Root Hdr LC Ev) (he : Bool) (wk wk' : Work W Root)
     (txs : List (RawTx Tx Root)) (rs : List R) (h : deliverAll A he wk txs = some (wk', rs)) :
     rs.length = txs.length := by
@@ -233,6 +237,7 @@ theorem deliverAll_length (A : Apps St W Tx R Root Hdr LC Ev) (he : Bool) (wk wk
 def BeginsFresh (m : Mux St W Tx R Root Hdr Ev) (h : Hash) : Prop :=
   ∀ p, m.prop = some p → p.hash = h → p.results = none ∧ p.work = none
 
+omit [DecidableEq Tx] [DecidableEq Root] [DecidableEq Hdr] [DecidableEq Ev] in
 theorem beginBlock_fresh (A : Apps St W Tx R Root Hdr LC Ev) (m : Mux St W Tx R Root Hdr Ev)
     (h : Hash) (b : Blk Tx Root Hdr LC Ev) (hf : BeginsFresh m h) :
     beginBlock A m h b =
@@ -294,6 +299,7 @@ theorem run_deliverSeq_cached (A : Apps St W Tx R Root Hdr LC Ev) (self : Nat) (
 
 /-! ### What PrepareProposal caches is what a validator computes for the completed block -/
 
+omit [DecidableEq Tx] [DecidableEq Root] [DecidableEq Hdr] [DecidableEq Ev] in
 theorem deliverAll_append (A : Apps St W Tx R Root Hdr LC Ev) (he : Bool) (wk : Work W Root)
     (xs ys : List (RawTx Tx Root)) :
     deliverAll A he wk (xs ++ ys) =
@@ -325,6 +331,7 @@ theorem deliverAll_append (A : Apps St W Tx R Root Hdr LC Ev) (he : Bool) (wk : 
         | none => rfl
         | some z => rfl
 
+omit [DecidableEq Tx] [DecidableEq Root] [DecidableEq Hdr] [DecidableEq Ev] in
 /-- A list of transactions that executes in proposing mode (empty hash) contains no system
 transaction, executes identically under a real hash, and leaves the multiplexer-owned parts of
 the block context untouched. -/
